@@ -15,7 +15,8 @@
 //  7. simrt.P(site) before every statement (site marker + optional preemption)
 //  8. -const2var: listed constants become variables (tuning knobs)
 //  9. x.n++, x.n += d, x.l = append(x.l, v) on shared locations -> load ; site ; store (rmw.go)
-// 10. debug.Stack()            -> simrt.Stack() (constant text unless SIM_REAL_STACK is set)
+// 10. for x := range ch -> loop around a bracketed receive; defer close(ch) -> defer simrt.Close(ch)
+// 11. debug.Stack()            -> simrt.Stack() (constant text unless SIM_REAL_STACK is set)
 //
 // Anything in a position the rewriter does not handle stops it with exit status 2
 // (fail closed): the check then reports "could not be built", never pass or violation.
@@ -602,7 +603,7 @@ func (r *rewriter) stmt(st ast.Stmt, label *ast.Ident) []ast.Stmt {
 		r.exprs(s.X)
 		r.block(s.Body)
 		if r.isChan(s.X) {
-			failf(r.fset, s.Pos(), "range over channel")
+			return append(out, r.rangeChan(s, label)...)
 		}
 		if r.isMap(s.X) {
 			return append(out, r.rangeMap(s, label)...)
@@ -670,8 +671,12 @@ func (r *rewriter) stmt(st ast.Stmt, label *ast.Ident) []ast.Stmt {
 		}
 	case *ast.DeferStmt:
 		r.funcLitsIn(s.Call)
-		if r.isBuiltin(s.Call.Fun, "close") {
-			failf(r.fset, s.Pos(), "defer close(ch)")
+		if r.isBuiltin(s.Call.Fun, "close") && len(s.Call.Args) == 1 {
+			// defer close(ch) -> defer simrt.Close(ch): the operand is still evaluated at the
+			// defer statement, the deferred call yields and closes
+			r.needSimrt = true
+			r.handled[s.Call] = true
+			s.Call.Fun = simrtSel("Close")
 		}
 	case *ast.ReturnStmt:
 		for _, e := range s.Results {
@@ -917,6 +922,40 @@ func (r *rewriter) rangeMap(s *ast.RangeStmt, label *ast.Ident) []ast.Stmt {
 	}
 	s.Body.List = append(head, s.Body.List...)
 	return append(pre, labeled(label, s))
+}
+
+// rangeChan rewrites "for x := range ch { body }" into a loop around a bracketed receive:
+//
+//	c := ch
+//	for { h := simrt.Pre(c); x, ok := <-c; simrt.Post(h); if !ok { break }; body }
+func (r *rewriter) rangeChan(s *ast.RangeStmt, label *ast.Ident) []ast.Stmt {
+	r.needSimrt = true
+	if s.Value != nil {
+		failf(r.fset, s.Pos(), "range over channel with two variables")
+	}
+	c, h, ok := r.name("c"), r.name("h"), r.name("ok")
+	recv := &ast.UnaryExpr{Op: token.ARROW, X: ast.NewIdent(c.Name)}
+	r.handled[recv] = true
+	var lhs ast.Expr = ast.NewIdent("_")
+	tok := token.DEFINE
+	var pre []ast.Stmt
+	if s.Key != nil && !isBlank(s.Key) {
+		lhs = s.Key
+		if s.Tok == token.ASSIGN {
+			tok = token.ASSIGN
+			pre = append(pre, &ast.DeclStmt{Decl: &ast.GenDecl{Tok: token.VAR, Specs: []ast.Spec{&ast.ValueSpec{Names: []*ast.Ident{ast.NewIdent(ok.Name)}, Type: ast.NewIdent("bool")}}}})
+		}
+	}
+	body := []ast.Stmt{define(h, call(simrtSel("Pre"), ast.NewIdent(c.Name)))}
+	body = append(body, pre...)
+	body = append(body,
+		&ast.AssignStmt{Lhs: []ast.Expr{lhs, ast.NewIdent(ok.Name)}, Tok: tok, Rhs: []ast.Expr{recv}},
+		&ast.ExprStmt{X: call(simrtSel("Post"), ast.NewIdent(h.Name))},
+		&ast.IfStmt{Cond: &ast.UnaryExpr{Op: token.NOT, X: ast.NewIdent(ok.Name)}, Body: &ast.BlockStmt{List: []ast.Stmt{&ast.BranchStmt{Tok: token.BREAK}}}},
+	)
+	body = append(body, s.Body.List...)
+	loop := &ast.ForStmt{Body: &ast.BlockStmt{List: body}}
+	return []ast.Stmt{define(c, s.X), labeled(label, loop)}
 }
 
 // finalCheck: no unbracketed channel operation or go statement may be left.
